@@ -1,0 +1,70 @@
+//go:build verif
+
+// Add-only access for the verification harness (build tag "verif"). Nothing here changes
+// behaviour; the wrappers only make unexported functions reachable.
+package discover
+
+import (
+	"crypto/ecdsa"
+	"net"
+)
+
+// VerifConn is the socket abstraction newUDP runs on.
+type VerifConn interface {
+	ReadFromUDP(b []byte) (n int, addr *net.UDPAddr, err error)
+	WriteToUDP(b []byte, addr *net.UDPAddr) (n int, err error)
+	Close() error
+	LocalAddr() net.Addr
+}
+
+// VerifDecodePacket is decodePacket. ptype is the packet type byte (0 if the packet is too
+// short), req the decoded request structure (pointer to ping/pong/findnode/neighbors; it can be
+// RLP-encoded by the caller), hash the packet hash.
+func VerifDecodePacket(buf []byte) (ptype byte, req interface{}, fromID NodeID, hash []byte, err error) {
+	p, id, h, err := decodePacket(buf)
+	if len(buf) > headSize {
+		ptype = buf[headSize]
+	}
+	if p == nil {
+		return ptype, nil, id, h, err
+	}
+	return ptype, p, id, h, err
+}
+
+// VerifEncodePacket is encodePacket.
+func VerifEncodePacket(priv *ecdsa.PrivateKey, ptype byte, req interface{}) ([]byte, error) {
+	return encodePacket(priv, ptype, req)
+}
+
+// VerifMaxNeighbors is the number of entries the node puts into one neighbors packet.
+func VerifMaxNeighbors() int { return maxNeighbors }
+
+// VerifUDP is a discovery endpoint (newUDP: table, node database, loop and readLoop
+// goroutines) bound to a caller-supplied socket.
+type VerifUDP struct {
+	t   *udp
+	Tab *Table
+}
+
+// VerifNewUDP is newUDP without NAT and with an in-memory node database.
+func VerifNewUDP(priv *ecdsa.PrivateKey, c VerifConn) *VerifUDP {
+	tab, t := newUDP(priv, c, nil, "")
+	return &VerifUDP{t: t, Tab: tab}
+}
+
+// HandlePacket is udp.handlePacket (what readLoop calls for every datagram).
+func (v *VerifUDP) HandlePacket(from *net.UDPAddr, buf []byte) error { return v.t.handlePacket(from, buf) }
+
+// Bonded reports whether the node database holds a bonded node with this id (the condition
+// under which findnode requests are served).
+func (v *VerifUDP) Bonded(id NodeID) bool { return v.t.db.node(id) != nil }
+
+// TableLen returns the number of nodes in the buckets.
+func (v *VerifUDP) TableLen() int {
+	v.Tab.mutex.Lock()
+	defer v.Tab.mutex.Unlock()
+	return v.Tab.len()
+}
+
+// Close is Table.Close.
+func (v *VerifUDP) Close() { v.Tab.Close() }
